@@ -1,6 +1,7 @@
 package main
 
 import (
+	"time"
 	"flag"
 	"fmt"
 	"os"
@@ -113,8 +114,12 @@ func main() {
 			closureValueRows(rep, prop, jsonRaw(), api)
 			closureValueRows(rep, prop, cborRaw(), api)
 		}
-		if prop == "C04" {
+		switch prop {
+		case "C04", "C01", "C05", "C11", "C17":
 			c02ExpiredNestedCall(rep, prop, api)
+		}
+		if prop == "C16" || prop == "C05" {
+			panickingClosures(rep, prop, api, 6, false)
 		}
 		if prop == "C10" || prop == "C17" {
 			panickingClosures(rep, prop, api, 6, false)
@@ -123,6 +128,25 @@ func main() {
 	}
 	if prop == "C13" {
 		twoLinksSameLiteral(rep, prop)
+		ld := 1200 * time.Millisecond
+		if *tier == "thorough" {
+			ld = 6 * time.Second
+		}
+		linksAfterAHandlerPanic(rep, prop, ld)
+	}
+	if prop == "C18" {
+		systematicNames(rep, prop, *seed)
+	}
+	switch prop {
+	case "C01", "C09", "C10":
+		dur := 1200 * time.Millisecond
+		if *tier == "thorough" {
+			dur = 8 * time.Second
+		}
+		cancelRaceWorkload(rep, prop, dur)
+	}
+	if prop == "C08" {
+		c08NarrowClosureArgs(rep)
 	}
 	switch prop {
 	case "C01", "C10", "C11", "C17":
